@@ -27,7 +27,7 @@ RULE = (
     "session ids) × 4 identities (anonymous, two principals, same principal in another domain): open(ttl), "
     "present(token, worker, identity, method ∈ read/close/open, spelling), mutant-present / mutant-DELETE "
     "(bit flip, byte substitution, truncation of bytes or base64 chars, head drop, extension, char substitution, "
-    "half swap, zeroed tag), DELETE, clock advance (incl. to expiry∓1ms), reaper tick, shutdown; plus a focused "
+    "half swap, zeroed tag), DELETE, clock advance (incl. to expiry∓1ms), reaper tick, expire-then-tick, shutdown; plus a focused "
     "family (one session, ≤8 mutations, control presentation afterwards) and an enumeration of every bit flip "
     "and every truncation length.  Non-trivial = the case contains a presentation that differs from the minting "
     "context in exactly one of worker / identity / liveness / token bytes; distinct by SHA-1 of the case JSON."
@@ -59,9 +59,10 @@ N_ID = len(IDENTITIES)
 
 # --------------------------------------------------------------------------- strategies
 
+# NB: st.one_of() drops duplicate branches, so weights are expressed through sampled_from() lists.
 # worker: "mint" = the minting worker, "other" = the peer; identity: "mint" or -k = the minting identity shifted by k
-_w_choice = st.one_of(st.just("mint"), st.just("mint"), st.just("other"), st.integers(0, 1))
-_id_choice = st.one_of(st.just("mint"), st.just("mint"), st.integers(-3, -1), st.integers(0, len(IDENTITIES) - 1))
+_w_choice = st.sampled_from(["mint", "mint", "mint", "mint", "other", "other", 0, 1])
+_id_choice = st.sampled_from(["mint", "mint", "mint", "mint", "mint", -1, -2, -3, 0, 1, 2, 3])
 
 mutations = st.one_of(
     st.builds(lambda p, b: {"kind": "bitflip", "pos": p, "bit": b}, st.integers(0, 127), st.integers(0, 7)),
@@ -76,37 +77,42 @@ mutations = st.one_of(
     st.just({"kind": "swap_halves"}),
     st.just({"kind": "zero_tag"}),
 )
-spellings = st.sampled_from(["pad", "std", "ws", "tab"])
+_spell = st.sampled_from([None, None, None, None, None, None, "pad", "std", "ws", "tab"])
 methods = st.sampled_from(["r", "r", "c", "o"])
 
 op_open = st.builds(
     lambda w, i, t: {"op": "open", "w": w, "id": i, "ttl": t},
     st.integers(0, 1), st.integers(0, N_ID - 1), st.sampled_from(TTLS),
 )
-op_present = st.builds(
-    lambda t, w, i, m, sp: {"op": "present", "tok": t, "w": w, "id": i, "m": m, "spell": sp},
-    st.integers(0, 7), _w_choice, _id_choice, methods,
-    st.one_of(st.none(), st.none(), st.none(), spellings),
-)
-op_mutant = st.builds(
-    lambda t, mu, m, via: {"op": "mutant", "tok": t, "mut": mu, "m": m, "via": via},
-    st.integers(0, 7), mutations, methods, st.sampled_from(["post", "post", "delete"]),
-)
-op_delete = st.builds(
-    lambda t, w, i, sp: {"op": "delete", "tok": t, "w": w, "id": i, "spell": sp},
-    st.one_of(st.integers(0, 7), st.integers(0, 7), st.integers(0, 7), st.integers(0, 7), st.integers(0, 7), st.none()),
-    _w_choice, _id_choice, st.one_of(st.none(), st.none(), spellings),
-)
-op_advance = st.builds(lambda ms: {"op": "advance", "ms": ms}, st.sampled_from([2, 500, 1000, 3000, 3002, 60000]))
-op_advance_to = st.builds(
-    lambda t, d: {"op": "advance_to", "tok": t, "delta": d}, st.integers(0, 7), st.sampled_from([-1, 1])
-)
-op_tick = st.builds(lambda w: {"op": "tick", "w": w}, st.integers(0, 1))
-op_shutdown = st.builds(lambda w: {"op": "shutdown", "w": w}, st.integers(0, 1))
 
-ops = st.one_of(
-    op_present, op_present, op_present, op_present, op_present, op_open, op_open, op_mutant, op_delete, op_delete,
-    op_advance, op_advance_to, op_advance_to, op_tick, op_tick, op_shutdown,
+_KINDS = (["present"] * 8 + ["open"] * 3 + ["mutant"] * 2 + ["delete"] * 3 + ["advance"] * 1 + ["advance_to"] * 3
+          + ["tick"] * 2 + ["expire_tick"] * 2 + ["shutdown"] * 1)
+
+
+def _mk_op(kind: str, tok: int, w: Any, i: Any, m: str, sp: Any, mut: dict[str, Any], via: str, w01: int, id03: int,
+           ttl: int, ms: int, delta: int, no_tok: bool) -> dict[str, Any]:
+    if kind == "present":
+        return {"op": "present", "tok": tok, "w": w, "id": i, "m": m, "spell": sp}
+    if kind == "open":
+        return {"op": "open", "w": w01, "id": id03, "ttl": ttl}
+    if kind == "mutant":
+        return {"op": "mutant", "tok": tok, "mut": mut, "m": m, "via": via}
+    if kind == "delete":
+        return {"op": "delete", "tok": None if no_tok else tok, "w": w, "id": i, "spell": sp}
+    if kind == "advance":
+        return {"op": "advance", "ms": ms}
+    if kind == "advance_to":
+        return {"op": "advance_to", "tok": tok, "delta": delta}
+    if kind == "expire_tick":
+        return {"op": "expire_tick", "tok": tok}
+    return {"op": kind, "w": w01}
+
+
+ops = st.builds(
+    _mk_op, st.sampled_from(_KINDS), st.integers(0, 7), _w_choice, _id_choice, methods, _spell, mutations,
+    st.sampled_from(["post", "post", "delete"]), st.integers(0, 1), st.integers(0, N_ID - 1), st.sampled_from(TTLS),
+    st.sampled_from([2, 500, 1000, 3000, 3002, 60000]), st.sampled_from([-1, 1]),
+    st.sampled_from([False] * 7 + [True]),
 )
 histories = st.builds(
     lambda first, rest, collide: {"collide": collide, "ops": [first] + rest},
@@ -352,6 +358,15 @@ class _Run:
                 if target > self.model.now_ms:
                     self.do_advance(target - self.model.now_ms)
                     self.out.label(f"advance_to_expiry{op['delta']:+d}")
+        elif kind == "expire_tick":  # let one session age out, then let its worker's reaper sweep
+            p = self.pick(op["tok"])
+            if p is not None:
+                sess = self.model.sessions[p[1]]
+                if sess.expiry_ms + 1 > self.model.now_ms:
+                    self.do_advance(sess.expiry_ms + 1 - self.model.now_ms)
+                self.world.tick(sess.worker)
+                self.model.tick(sess.worker)
+                self.out.label("expire_tick")
         elif kind == "tick":
             self.world.tick(op["w"])
             self.model.tick(op["w"])
